@@ -51,6 +51,19 @@ type Item struct {
 	hidden string
 }
 
+// CycPage / CycMeta: a pointer cycle that closes through a struct held by value.
+type CycPage struct {
+	Title string   `json:"title"`
+	Meta  CycMeta  `json:"meta"`
+	Sub   *CycPage `json:"sub"`
+}
+
+type CycMeta struct {
+	Note  string   `json:"note"`
+	Owner *CycPage `json:"owner"`
+	Tags  []string `json:"tags"`
+}
+
 type Emb struct {
 	Item
 	Extra string `json:"extra"`
